@@ -60,6 +60,7 @@ def required(tier):
           'C18.sequence-model': 60 if q else 800,
           'C18.alias-maps': 9, 'C18.alias-one-warning': 9,
           'C18.unfitted-raises': 100, 'C18.clone-same-model': 24,
+          'C18.set_params-then-fit': 12,
           'C18.params-untouched-by-fit': 12,
           'C18.pickle-bitwise': 15}
 
@@ -270,6 +271,34 @@ def run_case(spec, j):
       except Exception as ex:
         j.violated('C18.clone-same-model',
                    dict(det0, clone='after fit', raised=repr(ex)[:200]))
+    # a value given through set_params to an estimator that was fitted
+    # before takes effect exactly like the same value given to a fresh clone
+    changes = {}
+    gp = f.est.get_params(deep=False)
+    if isinstance(gp.get('preprocessor'), np.ndarray):
+      A = gp['preprocessor']
+      changes['preprocessor'] = A * 1.5 + 0.5 * rng.randn(*A.shape)
+    for k_, v_ in (('max_iter', None), ('random_state', 12345)):
+      if k_ in gp and k_ not in ALIASES:
+        changes[k_] = (int(gp[k_]) + 3) if v_ is None else v_
+    if changes:
+      with Quiet():
+        try:
+          f.est.set_params(**changes)
+          c3 = clone(f.est)
+          f.est.fit(*f.args, **f.kwargs)
+          c3.fit(*f.args, **f.kwargs)
+          M1, M3 = f.est.get_mahalanobis_matrix(), c3.get_mahalanobis_matrix()
+          j.close('C18.set_params-then-fit', M1, M3,
+                  1e-9 * max(np.abs(M3).max(), 1e-300),
+                  dict(det0, changed=sorted(changes)))
+        except Exception as ex:
+          if name.startswith('SDML') and isinstance(ex, RuntimeError):
+            j.skip('C18.set_params-then-fit', 'sdml-solver-failure')
+          else:
+            j.violated('C18.set_params-then-fit',
+                       dict(det0, changed=sorted(changes),
+                            raised=repr(ex)[:200]))
     e2 = pickle.loads(pickle.dumps(f.est))
     Xq = np.asarray(ds['X'], dtype=float)
     Q = Xq[rng.randint(0, len(Xq), size=(8, 2))]
